@@ -241,6 +241,37 @@ class WK:
     def g1_mul(self, proj, k):
         return self._capi("g1_multiply", self.g1sz, proj, conv.bi(k % R, 256))[1]
 
+    def g2_mul(self, proj, k):
+        return self._capi("g2_multiply", self.g2sz, proj, conv.bi(k % R, 256))[1]
+
+    def sampled_exponent(self, stream, seed):
+        """The exponent the library's decomposed-exponent sampler (PowersOfX::random, decided by C07/C10) draws first from this
+        stream. Leaves the random source re-armed with the same stream, so that the operation under test sees the same bytes."""
+        lib = self.lib
+        lib.set_random(stream, seed)
+        lib.B.fill(0xCD, 32)
+        lib.fn("vf_px_random", None)(lib.O.ptr, lib.B.ptr)
+        y = conv.ib(lib.B.read(32))
+        lib.set_random(stream, seed)
+        return y
+
+    def gt_pow(self, a, k):
+        return self._capi("gt_multiply", 576, a, conv.bi(k % R, 256))[1]
+
+    def ct_mismatch(self, ct, pv, entries, msg, s):
+        """Name of the first ciphertext component that is not the one determined by (parameters, attribute list, message, exponent s):
+        A = msg * e(g1,g2)^s, B = g^s, C = (g3 * prod h_i^{v_i})^s; None if all three are exact."""
+        img = self.blob_bytes(ct, 3)
+        a, b, c = img[:576], img[576:576 + self.g2sz], img[576 + self.g2sz:576 + self.g2sz + self.g1sz]
+        if not self.g2_eq(b, self.g2_mul(pv["g"], s)):
+            return "b"
+        prod = self.attr_product(pv, [(e[0], e[1]) for e in entries if e[1] is not None])
+        if not self.g1_eq(c, self.g1_mul(prod, s)):
+            return "c"
+        if a != self.gt_mul(msg, self.gt_pow(pv["pairing"], s)):
+            return "a"
+        return None
+
     def g1_add(self, a, b):
         return self._capi("g1_add", self.g1sz, a, b)[1]
 
